@@ -33,7 +33,7 @@ def public_functions():
 
 def classify_exc(e: BaseException) -> str:
     from kio.serial.errors import BufferUnderflow, OutOfBoundValue, UnexpectedNull
-    if type(e) is BufferUnderflow:
+    if isinstance(e, BufferUnderflow):
         return "underflow"
     if isinstance(e, UnexpectedNull):
         return "unexpected_null"
